@@ -261,6 +261,8 @@ async def _run_impl(d, case):
         for o in case['ops']:
             if o[0] == 'add':
                 ids.add(o[1][0])
+            elif o[0] == 'delete':
+                ids.update(o[1])
         unhex = {hx(i): i for i in ids}
         if mode == 'float':
             def fwd(a): return FLOAT_BASE + a / 1000.0
@@ -319,9 +321,13 @@ async def _run_impl(d, case):
         return ret
     dsm._clean = watched_clean
 
+    # observations go through a SECOND DiskSpaceManager: the one under test lives through the whole history and its
+    # usage cache (_used_space_bytes) is only ever touched by its own passes and by the history's status reads
+    watcher = DiskSpaceManager(conf, st, bm)
+
     async def observe():
         s = snapshot(dbpath, bd, unhex, back)
-        return {'usage_mb': await dsm.get_space_used_mb(cached=False),
+        return {'usage_mb': await watcher.get_space_used_mb(cached=False),
                 'usage_bytes': await st.get_stored_blob_disk_usage(),
                 'blobs': [list(b) for b in s.blobs], 'disk': s.disk}
 
@@ -339,11 +345,16 @@ async def _run_impl(d, case):
             if not resolved:
                 continue
             o = resolved[-1]
+        if o[0] == 'repass':                      # the last pass / clean() again, whatever happened in between
+            prev_pass = [r for r in resolved if r[0] in ('pass', 'clean')]
+            if not prev_pass:
+                continue
+            o = prev_pass[-1]
         if o[0] == 'pass':
             net = o[1]
             lim = o[2]
             if not isinstance(lim, int):
-                u = await dsm.get_space_used_mb(cached=False)
+                u = await watcher.get_space_used_mb(cached=False)
                 lim = resolve_limit(lim, u['network_storage'] if net else u['content_storage'] + u['private_storage'])
             if net:
                 conf.network_storage_limit = lim
@@ -352,7 +363,7 @@ async def _run_impl(d, case):
             await dsm._clean(net)
             resolved.append(['pass', net, lim])
         elif o[0] == 'clean':
-            u = await dsm.get_space_used_mb(cached=False)
+            u = await watcher.get_space_used_mb(cached=False)
             cl, nl = o[1], o[2]
             if not isinstance(cl, int):
                 cl = resolve_limit(cl, u['content_storage'] + u['private_storage'])
@@ -370,6 +381,17 @@ async def _run_impl(d, case):
             if not os.path.exists(os.path.join(bd, hx(h))):
                 mkfile(h, ln)
             resolved.append(['add', [h, ln, a, mine, True]])
+        elif o[0] == 'delete':                    # the user removes blobs through the BlobManager API
+            await orig_delete([hx(h) for h in o[1]], True)
+            resolved.append(['delete', list(o[1])])
+        elif o[0] == 'status':                    # status reads on the manager under test (they fill its cache)
+            if o[1] == 'used':
+                await dsm.get_space_used_mb()
+            else:
+                await dsm.get_free_space_mb(o[1] == 'free_net')
+            resolved.append(['status', o[1]])
+        else:
+            raise ValueError('unknown op %r' % (o,))
         ob = await observe()
         ob['deleted'] = [p['deleted'] for p in passes[n0:]]
         ob['tie'] = any(has_ties(p['cands'], p['net']) for p in passes[n0:])
@@ -504,11 +526,11 @@ def gen_db(rng, max_blobs):
     budget = rng.randrange(0, max_blobs + 1)
     profile_all = rng.choice(['mixed', 'mixed', 'full', 'small', 'edge', 'any'])
     while len(blobs) < budget:
-        kind = rng.choice(['own', 'down', 'down', 'down', 'nofile', 'net', 'net', 'netsd', 'ownorphan'])
+        kind = rng.choice(['own', 'down', 'down', 'down', 'downloading', 'nofile', 'net', 'net', 'netsd', 'ownorphan'])
         prof = profile_all if profile_all != 'any' else rng.choice(['mixed', 'full', 'small', 'edge'])
         if weird and rng.random() < 0.08:
             prof = 'big'
-        if kind in ('own', 'down', 'nofile'):
+        if kind in ('own', 'down', 'nofile', 'downloading'):
             sh = sid[0]
             sid[0] += 1
             mine = kind == 'own'
@@ -524,7 +546,7 @@ def gen_db(rng, max_blobs):
             for j in range(n):
                 b = new_id()
                 ln = gen_size(rng, 'mixed' if (prof == 'full' and j == n - 1) else prof)
-                fin = rng.random() > 0.08
+                fin = rng.random() > 0.08 and kind != 'downloading'   # store_stream inserts the rows as 'pending'
                 m = mine if not (weird and rng.random() < 0.1) else (not mine)
                 if not (weird and rng.random() < 0.05):       # dangling stream_blob row
                     blobs.append([b, ln, added(), m, fin])
@@ -568,29 +590,62 @@ def gen_limit(rng):
     return [k, rng.randrange(0, 1000) if k != 'abs' else rng.randrange(0, 8)]
 
 
+STATUS_KINDS = ['used', 'free_content', 'free_net']
+
+
 def gen_ops(rng, db, nid):
+    """histories: passes and clean() with limits relative to the usage at that moment, usage changing in between (blobs
+    of a stream being downloaded complete, new network blobs arrive, the user removes blobs through the API), status
+    reads, and the same pass again after such changes"""
     ops = []
-    n = rng.randrange(1, 5)
-    for _ in range(n):
-        c = rng.random()
-        if c < 0.5:
-            o = ['pass', rng.random() < 0.45, gen_limit(rng)]
-            ops.append(o)
-            if rng.random() < 0.55:
-                ops.append(['repeat'])                        # same pass, same (resolved) limit
-        elif c < 0.8:
-            ops.append(['clean', gen_limit(rng), gen_limit(rng)])
-            if rng.random() < 0.4:
-                ops.append(['repeat'])
+    pending = [b for b in db['blobs'] if not b[4] and not b[3]]
+    rng.shuffle(pending)
+
+    def a_pass():
+        if rng.random() < 0.25:
+            ops.append(['status', rng.choice(STATUS_KINDS)])
+        if rng.random() < 0.6:
+            ops.append(['pass', rng.random() < 0.45, gen_limit(rng)])
         else:
-            # a blob (re)appears: either a new network blob or one that exists / was deleted earlier
-            if db['blobs'] and rng.random() < 0.6:
-                b = rng.choice(db['blobs'])
-                ops.append(['add', [b[0], b[1], b[2], b[3], True]])
+            ops.append(['clean', gen_limit(rng), gen_limit(rng)])
+    for _ in range(rng.randrange(1, 6)):
+        c = rng.random()
+        if c < 0.4:
+            a_pass()
+            if rng.random() < 0.5:
+                ops.append(['repeat'])
+        elif c < 0.65:
+            # usage rises: 1..4 blobs (re)appear
+            for _ in range(rng.randrange(1, 5)):
+                r = rng.random()
+                if pending and r < 0.6:
+                    b = pending.pop()
+                    ops.append(['add', [b[0], b[1], b[2], b[3], True]])
+                elif db['blobs'] and r < 0.8:
+                    b = rng.choice(db['blobs'])
+                    ops.append(['add', [b[0], b[1], b[2], b[3], True]])
+                else:
+                    nid[0] += 1
+                    ops.append(['add', [nid[0], gen_size(rng, rng.choice(['mixed', 'full'])), rng.randrange(100000, 200000),
+                                        rng.random() < 0.2, True]])
+            if rng.random() < 0.2:
+                ops.append(['status', rng.choice(STATUS_KINDS)])
+            if rng.random() < 0.75:
+                ops.append(['repass'])
+        elif c < 0.85:
+            # usage drops: the user removes blobs
+            if db['blobs']:
+                ops.append(['delete', sorted({rng.choice(db['blobs'])[0] for _ in range(rng.randrange(1, 5))})])
+            if rng.random() < 0.2:
+                ops.append(['status', rng.choice(STATUS_KINDS)])
+            if rng.random() < 0.5:
+                ops.append(['repass'])
             else:
-                nid[0] += 1
-                ops.append(['add', [nid[0], gen_size(rng, 'mixed'), rng.randrange(100000, 200000),
-                                    rng.random() < 0.3, True]])
+                a_pass()
+        else:
+            ops.append(['status', rng.choice(STATUS_KINDS)])
+    if not any(o[0] in ('pass', 'clean') for o in ops):
+        a_pass()
     return ops
 
 
@@ -601,6 +656,8 @@ def gen_real(rng):
     net = [rng.choice([500000, 1100000, 2097151]) for _ in range(rng.randrange(0, 4))]
     ops = []
     for _ in range(rng.randrange(1, 4)):
+        if rng.random() < 0.3:
+            ops.append(['status', rng.choice(STATUS_KINDS)])
         if rng.random() < 0.6:
             ops.append(['pass', rng.random() < 0.4, gen_limit(rng)])
         else:
@@ -719,7 +776,7 @@ def exhaustive_cases():
 def main(run):
     model = vlib.Model('C19')
     rng = run.rng
-    n_cases = vlib.scaled(run.tier, 600, 12000)
+    n_cases = vlib.scaled(run.tier, 600, 8000)
     max_blobs = vlib.scaled(run.tier, 30, 60)
     run.rule = ('(a) states produced by the application itself: StreamDescriptor.create_stream + store_stream + '
                 'save_published_file + update_blob_ownership for 1..4 published / downloaded streams of 0.3..6.5 MB and 0..3 '
@@ -728,9 +785,11 @@ def main(run):
                 'sizes from profiles full(2 MiB) / sub-MiB / MiB edges +-1 / random <3 MiB / rare huge; pending rows, missing '
                 'files, blobs loaded in BlobManager; 25% of states deliberately outside the schema\'s normal shape (duplicate '
                 'file rows, sd blob >= 1 MiB, shared blobs, dangling rows, mixed ownership); 12% with ORDER BY ties. '
-                'histories of 1..8 operations: content pass / network pass / clean() / a blob (re)appearing through '
-                'storage.add_blobs, limits chosen relative to the usage at that moment (0, equal, +-1, below, above, '
-                'negative), 55% of passes immediately repeated. distinct = distinct (state, resolved history); '
+                'histories on ONE DiskSpaceManager object: content pass / network pass / clean(), limits chosen relative to the '
+                'usage at that moment (0, equal, +-1, below, above, negative); between passes usage rises (pending blobs of '
+                'a stream being downloaded complete, blobs reappear, new network blobs: storage.add_blobs) or drops (the user '
+                'removes blobs through blob_manager.delete_blobs), status reads (get_space_used_mb / get_free_space_mb) '
+                'fill the manager\'s cache, and the previous pass is run again after such changes or immediately. distinct = distinct (state, resolved history); '
                 'non-trivial = at least one blob row and one pass.')
     for c in load_corpus():
         check_case(run, model, c, 'corpus')
